@@ -1,3 +1,5 @@
+//go:build verif
+
 // Package atomic is the scheduler-controlled stand-in for sync/atomic: every
 // operation is a scheduling point and an acquire+release edge on the word's
 // address (Go atomics are sequentially consistent); the real operation is used
